@@ -57,6 +57,52 @@ pub fn run_case(kvs: &[Kv], geom: Geom, all_bytes: bool, extra: &[Key]) -> Resul
     .and_then(|x| x)
 }
 
+/// The same lookups on FSTs whose builder was kept in use after rejected
+/// calls: the model is what the builder itself ACCEPTED (its own answers).
+pub fn run_noisy(kvs: &[Kv], geom: Geom) -> Result<u64, String> {
+    let clean = front::build(Front::RawInsert, geom, kvs)?;
+    let is_set = kvs.iter().all(|x| x.1 == 0);
+    let mut n = 0;
+    for kind in 0..3u8 {
+        if kind == 2 && !is_set {
+            continue;
+        }
+      for mask in [31u8, 16] {
+        let (bytes, accepted, _) = match front::noisy_build(kind, if kind == 0 { geom } else { front::DEFAULT_GEOM }, kvs, mask) {
+            // the builder panicked inside a call it must reject: C06's business, nothing to look up
+            Err(e) if front::is_usage_skip(&e) => continue,
+            r => r?,
+        };
+        n += 1;
+        if bytes == clean {
+            continue; // identical file: the probes of run_case apply
+        }
+        let mut model: std::collections::BTreeMap<Key, u64> = std::collections::BTreeMap::new();
+        let mut distinct = true;
+        for (k, v) in &accepted {
+            distinct &= model.insert(k.clone(), *v).is_none();
+        }
+        if !distinct {
+            continue; // the builder accepted one key twice: no single value to expect
+        }
+        let keys: Vec<Key> = model.keys().cloned().collect();
+        guard(|| {
+            let f = Fst::new(&bytes[..]).map_err(|e| format!("{:?}", e))?;
+            for p in probe_closure(&keys, &EXT) {
+                let want = model.get(&p).copied();
+                let got = f.get(&p).map(|o| o.value());
+                if got != want || f.contains_key(&p) != want.is_some() {
+                    return Err(format!("builder kept in use after rejected calls (kind {}): accepted {}; Fst::get({}) = {:?}, expected {:?}", kind, kvs_str(&accepted), key_str(&p), got, want));
+                }
+            }
+            Ok(())
+        })
+        .and_then(|x| x)?;
+      }
+    }
+    Ok(n)
+}
+
 /// Only the given probes plus every key (no closure): for large inputs.
 pub fn run_probes(kvs: &[Kv], geom: Geom, probes: &[Key]) -> Result<u64, String> {
     let bytes = front::build(Front::RawInsert, geom, kvs)?;
@@ -100,12 +146,21 @@ pub fn replay(case: &Value) -> Result<String, String> {
     }
     let kvs = kvs_from(&case["kvs"]);
     let geom = geom_from(&case["geom"]);
+    if case["noisy"].as_bool() == Some(true) {
+        return run_noisy(&kvs, geom).map(|n| format!("{} noisy builds agree", n));
+    }
     let all = case["all_bytes"].as_bool().unwrap_or(false);
     let extra = keys_from(&case["extra"]);
     run_case(&kvs, geom, all, &extra).map(|n| format!("{} probes agree", n))
 }
 
 fn do_case(kvs: &[Kv], geom: Geom, all: bool, extra: &[Key], st: &mut Stats, rep: &Reporter) {
+    if kvs.len() <= 5 && kvs.iter().all(|x| x.0.len() <= 64) {
+        match run_noisy(kvs, geom) {
+            Ok(n) => st.count("builders_kept_in_use_after_rejected_calls", n),
+            Err(msg) => rep.violation(format!("noisy {} {:?}", kvs_str(kvs), geom), msg, json!({"kvs": kvs_json(kvs), "geom": [geom.0, geom.1], "noisy": true})),
+        }
+    }
     st.states += 1;
     match run_case(kvs, geom, all, extra) {
         Ok(n) => {
@@ -122,7 +177,7 @@ fn do_case(kvs: &[Kv], geom: Geom, all: bool, extra: &[Key], st: &mut Stats, rep
 
 pub fn plan(tier: Tier) -> Plan {
     let mut p = Plan::new("C02", "model_checking");
-    p.rule = "for every FST of the C01 scopes (all subsets of U_ab3/U_abc2/U_raw2 x value patterns, cache geometries default-like (3,3) and evict-always (1,1); fan-out families) every probe of the closure (keys, proper prefixes, one-byte extensions and single-byte substitutions by {00,a,b,c,7f,ff}; all 256 bytes for fan-out families; every universe string of length <= L+1) is looked up through Fst/Map/Set; non-trivial = FST with >= 2 keys".into();
+    p.rule = "for every FST of the C01 scopes (all subsets of U_ab3/U_abc2/U_raw2 x value patterns, cache geometries default-like (3,3) and evict-always (1,1); fan-out families) every probe of the closure (keys, proper prefixes, one-byte extensions and single-byte substitutions by {00,a,b,c,7f,ff}; all 256 bytes for fan-out families; every universe string of length <= L+1) is looked up through Fst/Map/Set; non-trivial = FST with >= 2 keys; for key sets of <= 5 keys the same lookups on FSTs whose raw/map/set builder was kept in use after rejected calls (duplicates with other values, smaller keys, rejected bulk calls after every accepted key), the model being the calls the builder itself accepted".into();
     p.assumptions = vec!["model lookup in a BTreeMap is the specification".into()];
     let thorough = tier.thorough();
     for u in [u_ab3(), u_abc2(), u_raw2()] {
